@@ -198,6 +198,12 @@ def rt : P String := do
     -- writer: model text (at the precisions found in the source) vs the library's text, token by token
     let v := v.diffIf (writeObj prec x != text) s!"{comp} writer model and impl texts differ"
     let v := v.diffIf (!(validObj sh x)) s!"{comp} generator object not valid in the model"
+    -- the trusted hypothesis of the round-trip theorems, evaluated on this object: written at 17 digits (and with the
+    -- count read as an integer) the model must read back exactly x
+    let rt17 := match readObj false kind sh with
+      | some rd' => (match rd' (writeObj prec17 x) with | .ok y' _ => y' == x | _ => false)
+      | none => false
+    let v := v.diffIf (!rt17) s!"{comp} hypothesis a value of this object does not survive 17 significant digits in the model"
     -- decisions of the original at the simplex corners: model `decision` vs `Policy::sampleAction(b, h)`
     let v := match x with
       | .ppol vf => v.diffIf (decs.any (fun (h, s, a, id) =>
